@@ -100,13 +100,13 @@ def damage(xml, ops):
         t = tags[n % len(tags)]
         txt = t.group(0)
         if op == 'drop_attr':
-            attrs = list(re.finditer(r'\s(\w+)="[^"]*"', txt))
+            attrs = [a for a in re.finditer(r'\s(\w+)="[^"]*"', txt) if a.group(1) != 'vid']   # vid is the harness's own tag
             if attrs:
                 a = attrs[n % len(attrs)]
                 new = txt[:a.start()] + txt[a.end():]
                 xml = xml[:t.start()] + new + xml[t.end():]
         elif op == 'empty_attr':
-            attrs = list(re.finditer(r'\s(\w+)="[^"]*"', txt))
+            attrs = [a for a in re.finditer(r'\s(\w+)="[^"]*"', txt) if a.group(1) != 'vid']
             if attrs:
                 a = attrs[n % len(attrs)]
                 new = txt[:a.start()] + ' %s=""' % a.group(1) + txt[a.end():]
